@@ -258,6 +258,21 @@ class Ctx:
                     cov.pop(k, None)
         if not cov["samples"]:
             cov["samples"] = ["(no sample recorded)"]
+        # keys the evidence schema reserves must have the schema's types: anything else a check
+        # stored under them is kept under "<key>_detail"
+        for k in ("states", "transitions", "traces_validated_against_impl", "obligations", "discharged",
+                  "programs", "disagreements_checked", "evaluations", "distinct_nontrivial"):
+            if k in cov and not (isinstance(cov[k], int) and not isinstance(cov[k], bool)):
+                cov[k + "_detail"] = cov.pop(k)
+        for k in ("rule", "explanation", "checker_cmd"):
+            if k in cov and not isinstance(cov[k], str):
+                cov[k] = json.dumps(cov[k], default=str)
+        if "exhaustive" in cov and not isinstance(cov["exhaustive"], bool):
+            cov["exhaustive"] = bool(cov["exhaustive"])
+        if "trusted_base" in cov and not isinstance(cov["trusted_base"], list):
+            cov["trusted_base"] = [str(cov["trusted_base"])]
+        if not isinstance(cov["samples"], list):
+            cov["samples"] = [cov["samples"]]
         ev = {
             "property_id": self.prop, "tier": self.tier, "seed": self.seed,
             "level": self.level, "coverage": cov, "assumptions": self.assumptions,
